@@ -27,16 +27,23 @@ import (
 type bnode = string
 
 type bsys struct {
-	idx     map[bnode]int
-	name    []bnode
-	w       [][]int64 // w[a][b] = k: a <= b + k; inf if unknown
-	word    int       // bits of int
-	seen    map[ssa.Value]bool
-	pend    []func() bool // conditional facts: return true when added (then dropped)
-	lvl     int           // nesting of per-edge sub-systems (phi operands)
-	relDone map[[2]ssa.Value]bool
-	cuts    []bcut // len nodes of slice expressions x[lo:hi] with a non-constant lo
-	guards  []Guard
+	idx      map[bnode]int
+	name     []bnode
+	w        [][]int64 // w[a][b] = k: a <= b + k; inf if unknown
+	word     int       // bits of int
+	seen     map[ssa.Value]bool
+	pend     []func() bool // conditional facts: return true when added (then dropped)
+	lvl      int           // nesting of per-edge sub-systems (phi operands)
+	relDone  map[[2]ssa.Value]bool
+	cuts     []bcut // len nodes of slice expressions x[lo:hi] with a non-constant lo
+	guards   []Guard
+	lenVals  map[bnode]lenVal // len/cap nodes and the value they measure
+	termDone map[string]bool
+}
+
+type lenVal struct {
+	v     ssa.Value
+	isCap bool
 }
 
 type bcut struct{ ln, lo, hi bnode }
@@ -125,7 +132,92 @@ func bkey(v ssa.Value) bnode {
 	if c, ok := v.(*ssa.Const); ok {
 		return "const:" + c.String()
 	}
+	if u, ok := v.(*ssa.UnOp); ok && u.Op == token.MUL {
+		v = canonLoad(u)
+	}
 	return fmt.Sprintf("v:%s@%p", v.Name(), v)
+}
+
+// canonLoad returns the earliest load of the same address that certainly yields the same value as u: walking
+// backwards from u through straight-line code (the same block and single-predecessor/single-successor chains), nothing
+// between the two may write the variable: no store to that address, no call other than builtins and the pure
+// encoding/binary helpers (a closure that captured the variable writes it through a call).
+func canonLoad(u *ssa.UnOp) *ssa.UnOp {
+	best := u
+	b := u.Block()
+	if b == nil {
+		return u
+	}
+	idx := -1
+	for i, in := range b.Instrs {
+		if in == ssa.Instruction(u) {
+			idx = i
+		}
+	}
+	for steps := 0; steps < 400; steps++ {
+		idx--
+		if idx < 0 {
+			if len(b.Preds) != 1 || len(b.Preds[0].Succs) != 1 {
+				return best
+			}
+			b = b.Preds[0]
+			idx = len(b.Instrs)
+			continue
+		}
+		switch x := b.Instrs[idx].(type) {
+		case *ssa.UnOp:
+			if x.Op == token.MUL && x.X == u.X {
+				best = x
+			}
+		case *ssa.Store:
+			if x.Addr == u.X || !distinctAddr(x.Addr, u.X) {
+				return best
+			}
+		case *ssa.Call:
+			if _, isB := x.Call.Value.(*ssa.Builtin); isB {
+				continue
+			}
+			if callee := x.Call.StaticCallee(); callee != nil && callee.Pkg != nil && callee.Pkg.Pkg.Path() == "encoding/binary" {
+				continue
+			}
+			if obj := CalleeObj(&x.Call); obj != nil && obj.Pkg() != nil && obj.Pkg().Path() == "encoding/binary" {
+				continue
+			}
+			return best
+		case *ssa.Defer, *ssa.Go, *ssa.Send, *ssa.Select, *ssa.MapUpdate:
+			return best
+		}
+	}
+	return best
+}
+
+// distinctAddr: a store through a cannot change what is read through b: b is a local variable (an Alloc) and a is an
+// element or field address derived from some other value, or another Alloc.
+func distinctAddr(a, b ssa.Value) bool {
+	if _, isAl := b.(*ssa.Alloc); !isAl {
+		return false
+	}
+	switch x := a.(type) {
+	case *ssa.Alloc:
+		return x != b
+	case *ssa.IndexAddr:
+		// an element of a slice/array reached through a value, not the variable itself
+		if al, ok := x.X.(*ssa.Alloc); ok && al == b {
+			return false
+		}
+		return true
+	case *ssa.FieldAddr:
+		root := x.X
+		for {
+			if fa, ok := root.(*ssa.FieldAddr); ok {
+				root = fa.X
+				continue
+			}
+			break
+		}
+		return root != b
+	}
+	return false
 }
 
 func lenKey(v ssa.Value) bnode { return "len:" + bkey(v) }
@@ -233,6 +325,31 @@ func (s *bsys) term(v ssa.Value) bnode {
 			}
 		}
 		if callee := x.Call.StaticCallee(); callee != nil && callee.Object() != nil {
+			switch callee.Object().(*types.Func).FullName() {
+			case "math/bits.Len64", "math/bits.Len":
+				s.le("0", n, 0)
+				s.le(n, "0", 64)
+			case "math/bits.Len32":
+				s.le("0", n, 0)
+				s.le(n, "0", 32)
+			case "math/bits.Len16":
+				s.le("0", n, 0)
+				s.le(n, "0", 16)
+			case "math/bits.Len8":
+				s.le("0", n, 0)
+				s.le(n, "0", 8)
+			}
+			// a function with a body and one integer result: constant bounds that hold on every way out
+			if len(callee.Blocks) > 0 && s.lvl < 2 && callee.Signature.Results().Len() == 1 && isInteger(callee.Signature.Results().At(0).Type()) && !x.Call.IsInvoke() {
+				if lo, hi, okLo, okHi := resultConstBounds(callee, s.word, s.lvl); okLo || okHi {
+					if okLo {
+						s.le("0", n, -lo)
+					}
+					if okHi {
+						s.le(n, "0", hi)
+					}
+				}
+			}
 			switch callee.Object().(*types.Func).FullName() {
 			case "strings.IndexByte", "bytes.IndexByte", "strings.Index", "bytes.Index", "strings.IndexRune", "strings.IndexAny", "bytes.IndexAny":
 				// -1 or an index into the first argument
@@ -353,6 +470,27 @@ func (s *bsys) term(v ssa.Value) bnode {
 			if k, ok := intConst(x.Y); ok && k > 0 && isUnsigned(v.Type()) {
 				s.le(n, "0", k-1)
 			}
+		case token.QUO:
+			if k, ok := intConst(x.Y); ok && k > 0 {
+				xn := s.term(x.X)
+				s.pend = append(s.pend, func() bool {
+					lo, okLo := s.constLo(xn)
+					if !okLo || lo < 0 {
+						return false
+					}
+					s.le("0", n, -(lo / k))
+					s.le(n, xn, 0)
+					if hi, okHi := s.constHi(xn); okHi {
+						s.le(n, "0", hi/k)
+					}
+					return true
+				})
+			}
+		case token.OR:
+			// x | k with non-negative operands is at least each of them
+			if k, ok := intConst(x.Y); ok && k >= 0 && isUnsigned(v.Type()) {
+				s.le(s.term(x.X), n, 0)
+			}
 		case token.SHR:
 			// x >> k of an unsigned / non-negative value does not exceed it
 			xn := s.term(x.X)
@@ -375,7 +513,7 @@ func (s *bsys) term(v ssa.Value) bnode {
 				s.eq(n, src, 0)
 			default:
 				s.pend = append(s.pend, func() bool {
-					if db >= 32 && s.lengthLike(src) {
+					if db >= s.word && s.lengthLike(src) {
 						s.eq(n, src, 0)
 						return true
 					}
@@ -390,11 +528,15 @@ func (s *bsys) term(v ssa.Value) bnode {
 							return true
 						}
 					}
-					if db >= 32 && !du {
+					if db >= 32 {
 						// a value with constant bounds that fit
 						lo, ok1 := s.constLo(src)
 						hi, ok2 := s.constHi(src)
-						if ok1 && ok2 && lo >= -(1<<30) && hi < 1<<30 {
+						min := int64(-(1 << 30))
+						if du {
+							min = 0
+						}
+						if ok1 && ok2 && lo >= min && hi < 1<<30 {
 							s.eq(n, src, 0)
 							return true
 						}
@@ -413,6 +555,9 @@ func (s *bsys) term(v ssa.Value) bnode {
 		// and its relation to the length of a string/slice merged in the same block (an index and the buffer it
 		// indexes, carried around a loop together)
 		s.pend = append(s.pend, func() bool { return s.phiVsLen(x, n) })
+		s.pend = append(s.pend, func() bool { return s.phiVsTerms(x, n) })
+		// counters of one loop that advance in lockstep
+		s.lockstep(x, n)
 	case *ssa.UnOp:
 		// nothing: loads are opaque
 	case *ssa.Extract:
@@ -442,6 +587,10 @@ func (s *bsys) lenOf(v ssa.Value) bnode {
 		return n
 	}
 	s.node(n)
+	if s.lenVals == nil {
+		s.lenVals = map[bnode]lenVal{}
+	}
+	s.lenVals[n] = lenVal{v, false}
 	s.le("0", n, 0)
 	s.le(n, "MAXLEN", 0)
 	switch t := v.Type().Underlying().(type) {
@@ -497,6 +646,14 @@ func (s *bsys) lenOf(v ssa.Value) bnode {
 		}
 	case *ssa.Phi:
 		s.pend = append(s.pend, func() bool { return s.phiLenBounds(x, n) })
+	case *ssa.UnOp:
+		// a local slice variable that is only ever assigned a make of constant length or an append to itself (also
+		// from the closures that capture it) never gets shorter than the shortest make
+		if x.Op == token.MUL {
+			if k, ok := growOnlyMinLen(x.X); ok {
+				s.le("0", n, -k)
+			}
+		}
 	case *ssa.Call:
 		// append(a, b...) is exactly len(a)+len(b) long: at least as long as either
 		if b, ok := x.Call.Value.(*ssa.Builtin); ok && b.Name() == "append" && len(x.Call.Args) > 0 {
@@ -513,6 +670,14 @@ func (s *bsys) lenOf(v ssa.Value) bnode {
 						}
 						if k, ok := s.constHi(bb); ok {
 							s.le(n, a, k)
+							done = true
+						}
+						if k, ok := s.constLo(a); ok && k > 0 {
+							s.le(bb, n, -k)
+							done = true
+						}
+						if k, ok := s.constLo(bb); ok && k > 0 {
+							s.le(a, n, -k)
 							done = true
 						}
 						return done
@@ -630,6 +795,10 @@ func (s *bsys) capOf(v ssa.Value) bnode {
 		return n
 	}
 	s.node(n)
+	if s.lenVals == nil {
+		s.lenVals = map[bnode]lenVal{}
+	}
+	s.lenVals[n] = lenVal{v, true}
 	s.le("0", n, 0)
 	s.le(n, "MAXLEN", 0)
 	switch x := v.(type) {
@@ -797,6 +966,209 @@ func (s *bsys) phiVsLen(p *ssa.Phi, n bnode) bool {
 	return !pending
 }
 
+// inductionOf: p is a loop counter phi [c, p + k, p + k, ...] with one constant entry value and the same positive
+// constant step on every other way in.
+func inductionOf(p *ssa.Phi) (c, k int64, ok bool) {
+	if !isInteger(p.Type()) || len(p.Edges) < 2 {
+		return 0, 0, false
+	}
+	haveC, haveK := false, false
+	for _, e := range p.Edges {
+		if v, isC := intConst(e); isC {
+			if haveC {
+				return 0, 0, false
+			}
+			c, haveC = v, true
+			continue
+		}
+		b, isB := e.(*ssa.BinOp)
+		if !isB || b.Op != token.ADD {
+			return 0, 0, false
+		}
+		var step int64
+		var okStep bool
+		if b.X == ssa.Value(p) {
+			step, okStep = intConst(b.Y)
+		} else if b.Y == ssa.Value(p) {
+			step, okStep = intConst(b.X)
+		}
+		if !okStep || step <= 0 || step > 1<<20 || (haveK && step != k) {
+			return 0, 0, false
+		}
+		k, haveK = step, true
+	}
+	return c, k, haveC && haveK
+}
+
+// lockstep: two counters of the same loop header, q tested against a small constant in the header (so neither wraps):
+// q = cq + kq*t and p = cp + kp*t for the same iteration number t, hence constant bounds of q bound p.
+func (s *bsys) lockstep(p *ssa.Phi, n bnode) {
+	cp, kp, ok := inductionOf(p)
+	if !ok || s.lvl >= 2 {
+		return
+	}
+	blk := p.Block()
+	if len(blk.Instrs) == 0 {
+		return
+	}
+	br, isIf := blk.Instrs[len(blk.Instrs)-1].(*ssa.If)
+	if !isIf {
+		return
+	}
+	cond, isBin := br.Cond.(*ssa.BinOp)
+	if !isBin {
+		return
+	}
+	for _, in := range blk.Instrs {
+		q, isPhi := in.(*ssa.Phi)
+		if !isPhi {
+			break
+		}
+		if q == p {
+			continue
+		}
+		cq, kq, okq := inductionOf(q)
+		if !okq {
+			continue
+		}
+		// the header test bounds q (or p) by a small constant
+		bounded := false
+		for _, pr := range [][2]ssa.Value{{cond.X, cond.Y}, {cond.Y, cond.X}} {
+			if (pr[0] == ssa.Value(q) || pr[0] == ssa.Value(p)) && (cond.Op == token.LSS || cond.Op == token.LEQ || cond.Op == token.GTR || cond.Op == token.GEQ) {
+				if K, isK := intConst(pr[1]); isK && K >= 0 && K < 1<<31 {
+					bounded = true
+				}
+			}
+		}
+		if !bounded {
+			continue
+		}
+		qn := s.term(q)
+		s.pend = append(s.pend, func() bool {
+			done := false
+			if L, okL := s.constLo(qn); okL && L > cq {
+				t := (L - cq + kq - 1) / kq
+				s.le("0", n, -(cp + kp*t))
+				done = true
+			}
+			if H, okH := s.constHi(qn); okH && H >= cq {
+				t := (H - cq) / kq
+				s.le(n, "0", cp+kp*t)
+				done = true
+			}
+			return false && done
+		})
+	}
+}
+
+// phiVsTerms relates an integer phi to the lengths and capacities (of values defined before the merge) that are
+// terms of the system: p >= T + k (or <=) if that holds for the operand of every way in under the guards of that way.
+func (s *bsys) phiVsTerms(p *ssa.Phi, n bnode) bool {
+	if !isInteger(p.Type()) || s.lvl >= 2 {
+		return true
+	}
+	if s.termDone == nil {
+		s.termDone = map[string]bool{}
+	}
+	for name, tv := range s.lenVals {
+		key := n + "|" + name
+		if s.termDone[key] {
+			continue
+		}
+		// the measured value must be defined outside the merge (dominate it)
+		if in, ok := tv.v.(ssa.Instruction); ok {
+			if in.Block() == nil || in.Block() == p.Block() || !in.Block().Dominates(p.Block()) {
+				continue
+			}
+		}
+		s.termDone[key] = true
+		lo, hi, okLo, okHi := int64(1<<50), int64(-(1 << 50)), true, true // p >= T + lo ; p <= T + hi
+		for i := range p.Edges {
+			if i >= len(p.Block().Preds) {
+				okLo, okHi = false, false
+				break
+			}
+			sub := newBsys(s.word)
+			sub.lvl = s.lvl + 1
+			for _, g := range GuardsOfEdge(p.Block().Preds[i], p.Block()) {
+				sub.addGuard(g)
+			}
+			pe := sub.term(p.Edges[i])
+			var tn bnode
+			if tv.isCap {
+				tn = sub.capOf(tv.v)
+			} else {
+				tn = sub.lenOf(tv.v)
+			}
+			sub.solve()
+			if sub.inconsistent() {
+				continue
+			}
+			if k, has := sub.bound(tn, pe); has { // T <= e + k  =>  e >= T - k
+				if -k < lo {
+					lo = -k
+				}
+			} else {
+				okLo = false
+			}
+			if k, has := sub.bound(pe, tn); has {
+				if k > hi {
+					hi = k
+				}
+			} else {
+				okHi = false
+			}
+		}
+		if okLo && lo < 1<<49 {
+			s.le(name, n, -lo)
+		}
+		if okHi && hi > -(1<<49) {
+			s.le(n, name, hi)
+		}
+	}
+	return false // new length terms may appear later
+}
+
+// resultConstBounds: constant bounds of the single integer result of fn that hold on every return.
+func resultConstBounds(fn *ssa.Function, word, lvl int) (lo, hi int64, okLo, okHi bool) {
+	lo, hi, okLo, okHi = 1<<50, -(1 << 50), true, true
+	any := false
+	for _, rc := range ReturnCases(fn) {
+		if len(rc.Vals) != 1 {
+			return 0, 0, false, false
+		}
+		sub := newBsys(word)
+		sub.lvl = lvl + 1
+		for _, g := range rc.Guards {
+			sub.addGuard(g)
+		}
+		n := sub.term(rc.Vals[0])
+		sub.solve()
+		if sub.inconsistent() {
+			continue
+		}
+		any = true
+		if l, ok := sub.constLo(n); ok {
+			if l < lo {
+				lo = l
+			}
+		} else {
+			okLo = false
+		}
+		if h, ok := sub.constHi(n); ok {
+			if h > hi {
+				hi = h
+			}
+		} else {
+			okHi = false
+		}
+	}
+	if !any {
+		return 0, 0, false, false
+	}
+	return
+}
+
 // phiLenBounds: nothing is known about the length of a merged slice beyond what guards say.
 func (s *bsys) phiLenBounds(p *ssa.Phi, n bnode) bool { return true }
 
@@ -863,7 +1235,7 @@ func (s *bsys) addGuard(g Guard) {
 }
 
 func (s *bsys) solve() {
-	for round := 0; round < 6; round++ {
+	for round := 0; round < 24; round++ {
 		s.close()
 		changed := false
 		var keep []func() bool
@@ -1013,4 +1385,178 @@ func retErrTestedNonNil(rc RetCase, errIdx int) bool {
 		}
 	}
 	return false
+}
+
+// ProveRel reports whether a' <= b' + k and whether a' >= b' + k hold where instruction at executes; a' is len(a) if
+// aLen (else a), likewise b'.
+func ProveRel(at ssa.Instruction, a ssa.Value, aLen bool, b ssa.Value, bLen bool, k int64, word int) (le, ge bool) {
+	s := newBsys(word)
+	for _, g := range GuardsOf(at.Block()) {
+		s.addGuard(g)
+	}
+	var an, bn bnode
+	if aLen {
+		an = s.lenOf(a)
+	} else {
+		an = s.term(a)
+	}
+	if bLen {
+		bn = s.lenOf(b)
+	} else {
+		bn = s.term(b)
+	}
+	s.solve()
+	if s.inconsistent() {
+		return true, true
+	}
+	if d, ok := s.bound(an, bn); ok && d <= k {
+		le = true
+	}
+	if d, ok := s.bound(bn, an); ok && d <= -k {
+		ge = true
+	}
+	return
+}
+
+// SameLoad: the two loads read the same address and certainly yield the same value.
+func SameLoad(a, b *ssa.UnOp) bool {
+	return a.X == b.X && canonLoad(a) == canonLoad(b)
+}
+
+// growOnlyMinLen: addr is a local slice variable (or a closure's view of one) all of whose assignments, in the
+// declaring function and in every closure that captures it, are make([]T, K, ...) with constant K or append(<the
+// variable itself>, ...); the result is the smallest K.
+func growOnlyMinLen(addr ssa.Value) (int64, bool) {
+	var root *ssa.Alloc
+	switch a := addr.(type) {
+	case *ssa.Alloc:
+		root = a
+	case *ssa.FreeVar:
+		// find the allocation bound to this free variable
+		fn := a.Parent()
+		if fn == nil || fn.Parent() == nil {
+			return 0, false
+		}
+		idx := -1
+		for i, fv := range fn.FreeVars {
+			if fv == a {
+				idx = i
+			}
+		}
+		Instrs(fn.Parent(), func(in ssa.Instruction) {
+			if mc, ok := in.(*ssa.MakeClosure); ok && mc.Fn == ssa.Value(fn) && idx >= 0 && idx < len(mc.Bindings) {
+				if al, isAl := mc.Bindings[idx].(*ssa.Alloc); isAl {
+					root = al
+				}
+			}
+		})
+	}
+	if root == nil {
+		return 0, false
+	}
+	if _, isSl := root.Type().(*types.Pointer).Elem().Underlying().(*types.Slice); !isSl {
+		return 0, false
+	}
+	min, any, ok := int64(0), false, true
+	var scan func(a ssa.Value, depth int)
+	scan = func(a ssa.Value, depth int) {
+		refs := a.Referrers()
+		if refs == nil || depth > 3 {
+			ok = false
+			return
+		}
+		for _, r := range *refs {
+			switch x := r.(type) {
+			case *ssa.UnOp, *ssa.DebugRef:
+			case *ssa.Store:
+				if x.Addr != a {
+					ok = false // the address itself is stored somewhere
+					return
+				}
+				switch v := x.Val.(type) {
+				case *ssa.MakeSlice:
+					k, isK := intConst(v.Len)
+					if !isK {
+						ok = false
+						return
+					}
+					if !any || k < min {
+						min, any = k, true
+					}
+				case *ssa.Call:
+					b, isB := v.Call.Value.(*ssa.Builtin)
+					if !isB || b.Name() != "append" {
+						ok = false
+						return
+					}
+					ld, isLd := v.Call.Args[0].(*ssa.UnOp)
+					if !isLd || ld.Op != token.MUL || ld.X != a {
+						ok = false
+						return
+					}
+				default:
+					ok = false
+					return
+				}
+			case *ssa.MakeClosure:
+				fn, _ := x.Fn.(*ssa.Function)
+				if fn == nil {
+					ok = false
+					return
+				}
+				for i, bnd := range x.Bindings {
+					if bnd == a && i < len(fn.FreeVars) {
+						scan(fn.FreeVars[i], depth+1)
+					}
+				}
+			default:
+				ok = false
+				return
+			}
+		}
+	}
+	scan(root, 0)
+	return min, ok && any
+}
+
+// ProveMake tries to show that a make([]T, len, cap) cannot panic because of its arguments: 0 <= len <= cap.
+func ProveMake(mk *ssa.MakeSlice, word int) (bool, string) {
+	s := newBsys(word)
+	for _, g := range GuardsOf(mk.Block()) {
+		s.addGuard(g)
+	}
+	ln, cn := s.term(mk.Len), s.term(mk.Cap)
+	s.solve()
+	if s.inconsistent() {
+		return true, "unreachable"
+	}
+	if lo, ok := s.constLo(ln); !ok || lo < 0 {
+		return false, "length not shown non-negative"
+	}
+	if mk.Cap != mk.Len {
+		if d, ok := s.bound(ln, cn); !ok || d > 0 {
+			return false, "length not shown to be at most the capacity"
+		}
+	}
+	return true, "0 <= len <= cap follows from the dominating comparisons"
+}
+
+// DebugMake dumps the finite constraints of the system built for a make (debugging aid).
+func DebugMake(mk *ssa.MakeSlice, word int) string {
+	s := newBsys(word)
+	for _, g := range GuardsOf(mk.Block()) {
+		s.addGuard(g)
+	}
+	s.term(mk.Len)
+	s.term(mk.Cap)
+	s.solve()
+	var sb strings.Builder
+	for i, a := range s.name {
+		for j, b := range s.name {
+			if i != j && s.w[i][j] < binf && !strings.HasPrefix(a, "k:") && !strings.HasPrefix(b, "k:") {
+				fmt.Fprintf(&sb, "  %s <= %s + %d\n", a, b, s.w[i][j])
+			}
+		}
+	}
+	return sb.String()
 }
